@@ -72,6 +72,7 @@ class TableExtractor:
         self.sd_var = None
         self.len_var = None
         self.dash = None
+        self.locals = {}      # boolean locals of the loop body: name -> defining expression
 
     def const(self, n):
         v = self.ctx.consts.folder.try_ev(self.mod.name, n, default=None)
@@ -91,6 +92,8 @@ class TableExtractor:
             return dom - self.ev(cond.operand, index, sd, dom)
         if isinstance(cond, ast.Name) and cond.id == self.sd_var:
             return dom if sd else CS()
+        if isinstance(cond, ast.Name) and cond.id in self.locals:
+            return self.ev(self.locals[cond.id], index, sd, dom)
         if isinstance(cond, ast.Call) and isinstance(cond.func, ast.Attribute) and isinstance(cond.func.value, ast.Name) \
                 and cond.func.value.id == self.ch_var and not cond.args and cond.func.attr in STR_PREDICATES:
             return dom & str_predicate(cond.func.attr)
@@ -217,10 +220,18 @@ def run(ctx, report: Report) -> None:
                 and isinstance(st.targets[0], ast.Name):
             tx.cp_var = st.targets[0].id
     chain = [st for st in loop.body if isinstance(st, ast.If)]
-    others = [st for st in loop.body if not isinstance(st, ast.If) and not (
-        isinstance(st, ast.Assign) and isinstance(st.value, ast.Call) and call_name(st.value) == 'ord')]
+    others = []
+    for st in loop.body:
+        if isinstance(st, ast.If) or (isinstance(st, ast.Assign) and isinstance(st.value, ast.Call) and call_name(st.value) == 'ord'):
+            continue
+        if isinstance(st, ast.Assign) and len(st.targets) == 1 and isinstance(st.targets[0], ast.Name) and chain \
+                and st.lineno < chain[0].lineno and st.targets[0].id not in tx.locals \
+                and isinstance(st.value, (ast.Compare, ast.BoolOp, ast.UnaryOp)):
+            tx.locals[st.targets[0].id] = st.value          # a named condition, evaluated where it is used
+            continue
+        others.append(st)
     if tx.cp_var is None or len(chain) != 1 or others:
-        raise AnalysisError('escape(): loop body is not `codepoint = ord(c)` followed by one if/elif chain')
+        raise AnalysisError('escape(): loop body is not `codepoint = ord(c)`, named conditions and one if/elif chain')
     chain = chain[0]
     # start_dash = <...> ident[0] == '-'
     for st in fn.body:
@@ -246,14 +257,22 @@ def run(ctx, report: Report) -> None:
         elif isinstance(st, ast.If):
             body_ifs.append(st)
     top_if = body_ifs
-    if tx.sd_var is None or len(top_if) != 1 or loop not in top_if[0].orelse:
+    early = len(top_if) == 1 and not top_if[0].orelse and loop in fn.body and len(top_if[0].body) == 1 \
+        and isinstance(top_if[0].body[0], ast.Return) and fn.body.index(top_if[0]) < fn.body.index(loop)
+    if tx.sd_var is None or len(top_if) != 1 or not (early or loop in top_if[0].orelse):
         raise AnalysisError('escape(): single-dash special case / start_dash definition not found')
     top_if = top_if[0]
     if unparse(top_if.test) not in (f'{tx.len_var} == 1 and {tx.sd_var}', f'{tx.sd_var} and {tx.len_var} == 1'):
         raise AnalysisError(f'escape(): special case `{unparse(top_if.test)}` outside the model')
-    if len(top_if.body) != 1 or not isinstance(top_if.body[0], ast.Expr):
-        raise AnalysisError('escape(): special-case body outside the model')
-    special_tpl = tx.template(top_if.body[0].value)
+    if early:
+        # `return f'\\{ident}'` - the same output vocabulary as an append
+        special_call = ast.Call(func=ast.Attribute(value=ast.Name(id='_', ctx=ast.Load()), attr='append', ctx=ast.Load()),
+                                args=[top_if.body[0].value], keywords=[])
+    else:
+        if len(top_if.body) != 1 or not isinstance(top_if.body[0], ast.Expr):
+            raise AnalysisError('escape(): special-case body outside the model')
+        special_call = top_if.body[0].value
+    special_tpl = tx.template(special_call)
     dash = ord(tx.dash)
     # any other statement in the function must be initialisation or the final join
     table = {}
@@ -359,7 +378,14 @@ def run(ctx, report: Report) -> None:
         if w is not None:
             r3.violation(f'RE_CSS_ESC {what}', esc.where,
                          f'the escape decoder RE_CSS_ESC no longer inverts escape(): {what} fails on {w!r}')
-    umod, ufn = src.func('css_parser.css_unescape.replace')
+    umod, outer = src.func('css_parser.css_unescape')
+    cb = [c.args[0].id for c in ast.walk(outer) if isinstance(c, ast.Call) and isinstance(c.func, ast.Attribute)
+          and c.func.attr == 'sub' and c.args and isinstance(c.args[0], ast.Name)]
+    if len(cb) != 1:
+        raise AnalysisError('css_unescape: the REGEX.sub(callback, content) call was not found (anchor vanished)')
+    ufn = umod.functions.get(f'css_unescape.{cb[0]}') or umod.functions.get(cb[0])
+    if ufn is None:
+        raise AnalysisError(f'css_unescape: substitution callback {cb[0]} not found (anchor vanished)')
     # code points the decoder replaces by U+FFFD
     cp_name = None
     repl = CS()
